@@ -426,6 +426,8 @@ func (e *Env) Build(n *Node) templ.Component {
 		return corpus.Href(templ.URL("/p?q=" + n.S))
 	case "style":
 		return corpus.Style(e.strExpr("Style.f", "color: red; width: "+fmt.Sprint(n.N)+"px"))
+	case "styleslice":
+		return corpus.StyleSlice(e.strExpr("StyleSlice.f", "width: "+fmt.Sprint(n.N)+"px"), e.strExpr("StyleSlice.g", "height: 2px"))
 	case "comment":
 		return corpus.Comment()
 	case "rawel":
@@ -531,7 +533,7 @@ func genSpec(t *kernel.Tape, budget *int, depth int) *Node {
 		}
 		return n
 	}
-	leaf := []string{"lit", "lit0", "lit100", "text", "textmulti", "attr", "boolattr", "spread", "condattr", "href", "style", "comment", "rawel", "scriptexpr", "raw", "hwfail", "block", "noslot", "jsonscript"}
+	leaf := []string{"lit", "lit0", "lit100", "text", "textmulti", "attr", "boolattr", "spread", "condattr", "href", "style", "styleslice", "comment", "rawel", "scriptexpr", "raw", "hwfail", "block", "noslot", "jsonscript"}
 	big := []string{"lit4000", "lit4090", "lit6000"}
 	inner := []string{"seq", "el", "ifelse", "switch", "callnoblock", "callblock", "passdownblock", "flush", "join", "gojoin", "hwwrap", "oncebody", "slotcall", "slottwicecall", "togohtml", "ownbufcall", "shape", "shape"}
 	mk := func(k string) *Node {
@@ -542,7 +544,7 @@ func genSpec(t *kernel.Tape, budget *int, depth int) *Node {
 			n.B = t.Bool("b")
 		case "boolattr":
 			n.B = t.Bool("b")
-		case "style":
+		case "style", "styleslice":
 			n.N = t.Choose(50, "n")
 		case "hwfail":
 			n.S = exprValues[t.Choose(len(exprValues), "val")]
